@@ -225,9 +225,7 @@ func runPubScenario(sc J) []stepResult {
 				obs["handled"] = handled
 				obs["err"] = errClassPub(err)
 			}()
-			select {
-			case <-done:
-			case <-time.After(10 * time.Second):
+			if !waitDone(done, 10*time.Second) {
 				obs["hang"] = true
 			}
 		}()
